@@ -300,14 +300,24 @@ class Interp:
             env_c, args_c, cl_c = copy.deepcopy((env or {}, args or {}, closure_locals or {}), memo)
             for k, v in env_c.items():
                 run.heap[k] = v
-            if fi.cls is not None:
-                for k in env_c:
+            # fields of `self` that the rule presets but that this tree computes from other fields (a stored attribute turned into a property with a
+            # setter): the preset goes through the setter, and the value reported at the end of the path is what the getter returns then
+            virtual = {}
+            scls = fi.cls
+            anc_ = fi.parent
+            while scls is None and anc_ is not None:
+                scls = anc_.cls
+                anc_ = anc_.parent
+            if scls is not None:
+                for k in list(env_c):
                     if k.startswith("self.") and "." not in k[5:] and "[" not in k:
-                        pm = self.repo.find_method(fi.cls.qual, k[5:])
-                        if pm is not None and ("property" in pm.decorators or any(d.endswith((".setter", ".getter")) for d in pm.decorators)):
-                            # the rule's model state names a stored field; in this tree it is computed from other fields — presetting it would be ignored
-                            raise AnalysisError(f"{fi.cls.name}.{k[5:]} is a computed property in this tree: the model state of the rule (which presets it as a stored "
-                                                f"field) does not apply; the rule has to be re-confirmed against the new representation")
+                        g_, s_ = _prop_defs(self.repo, scls.qual, k[5:])
+                        if g_ is None:
+                            continue
+                        if s_ is None:
+                            raise AnalysisError(f"{scls.name}.{k[5:]} is a read-only computed property in this tree: the model state of the rule (which presets it as a "
+                                                f"stored field) does not apply")
+                        virtual[k] = (g_, s_, run.heap.pop(k))
             cf = closure_frame
             if closure_locals is not None and fi.parent is not None:
                 cf = Frame(fi.parent, None, 0)
@@ -333,6 +343,11 @@ class Interp:
                     break
                 anc = anc.parent
             try:
+                for k, (g_, s_, val_) in virtual.items():
+                    run.call_function(s_, [Sym("self"), val_], {}, s_.node, fr)
+            except (_Return, _Raise, _Trunc) as e_:
+                raise AnalysisError(f"cannot preset {list(virtual)} through the property setter: {type(e_).__name__}")
+            try:
                 run.bind_param_types(fr)
                 v = run.exec_function_body(fr)
                 ex = ("return", v)
@@ -344,6 +359,11 @@ class Interp:
                 ex = ("trunc", t.why)
             except (_Break, _Continue):
                 ex = ("trunc", "stray break/continue")
+            for k, (g_, s_, val_) in virtual.items():
+                try:
+                    run.heap[k] = run.call_function(g_, [Sym("self")], {}, g_.node, fr)
+                except (_Return, _Raise, _Trunc):
+                    run.heap[k] = Sym(k)
             paths.append(Path(run.effects, run.decisions, ex, run.notes, run.heap))
             for i in range(len(prefix), len(run.trace)):
                 if run.trace[i]:
@@ -351,6 +371,27 @@ class Interp:
             if len(paths) > self.opts.max_paths:
                 raise AnalysisError(f"path bound {self.opts.max_paths} exceeded in {fi.qual}")
         return paths
+
+
+def _prop_defs(repo, cls_qual, name):
+    """(getter FuncInfo, setter FuncInfo or None) if `name` is a property of the class (or a base), else (None, None)"""
+    import ast as _ast
+
+    for q in repo.class_mro(cls_qual):
+        ci = repo.classes.get(q)
+        if ci is None:
+            continue
+        g = s_ = None
+        for st in ci.node.body:
+            if isinstance(st, _ast.FunctionDef) and st.name == name:
+                decos = [_ast.unparse(d) for d in st.decorator_list]
+                if "property" in decos or any(d.endswith(".getter") for d in decos):
+                    g = FuncInfo(qual=f"{q}.{name}", node=st, module=ci.module, cls=ci)
+                elif any(d.endswith(".setter") for d in decos):
+                    s_ = FuncInfo(qual=f"{q}.{name}", node=st, module=ci.module, cls=ci)
+        if g is not None:
+            return g, s_
+    return None, None
 
 
 def _is_new_param(fi, p) -> bool:
